@@ -505,6 +505,17 @@ pub fn tier3(quick: bool) -> Vec<Program> {
         }
         // the same with two answers
         out.push(Program { nq: 1, body: vec![G::Fresh(vec![1, 2, 3, 4], vec![G::Conde(vec![vec![G::Eq(q.clone(), T::I(10))], vec![G::Eq(q.clone(), T::I(20))]]), doms3.clone(), dom4.clone(), dist.clone()])] });
+        // the wide domain on the variable that is labelled FIRST (lowest variable id; also the
+        // second and the third): its first value is consistent locally and wrong globally
+        for wide in [&a, &b, &c] {
+            let narrow: Vec<T> = [&a, &b, &c, &d].iter().filter(|v| **v != wide).map(|v| (*v).clone()).collect();
+            let dn = G::InFd(narrow, Dom::Range(1, 3));
+            let dw = G::InFd(vec![wide.clone()], Dom::Range(1, 4));
+            for qeq in [G::Eq(q.clone(), T::I(10)), G::Eq(q.clone(), T::list(vec![d.clone()]))] {
+                out.push(Program { nq: 1, body: vec![G::Fresh(vec![1, 2, 3, 4], vec![qeq.clone(), dn.clone(), dw.clone(), dist.clone()])] });
+                out.push(Program { nq: 1, body: vec![G::Fresh(vec![1, 2, 3, 4], vec![dist2.clone(), dw.clone(), dn.clone(), qeq.clone()])] });
+            }
+        }
     }
     // hidden FD variables that are ALIASED (`a == b` binds one to the other and moves its domain):
     // a constraint that names the bound side, is not refuted by bounds propagation, and has no
